@@ -43,6 +43,8 @@ enum Tok {
     Call { recv: String, method: String, scope: Vec<usize> },
     /// the element is cloned: `.clone()` on the looked-up value, `clone_fn`, memcpy
     CloneElem { scope: Vec<usize> },
+    /// the element buffer is reached directly: `<base>.ptr` (only produced by `trace_buf`)
+    Buf { base: String, scope: Vec<usize> },
 }
 
 const TRACKED: &[&str] = &[
@@ -57,6 +59,8 @@ struct Tracer {
     /// name of the `let` whose initialiser is being visited, if that
     /// initialiser is exactly `<recv>.lock().unwrap()`
     binding: Option<String>,
+    /// also record `<base>.ptr`
+    with_buf: bool,
 }
 
 fn lock_unwrap_recv(e: &syn::Expr) -> Option<&syn::Expr> {
@@ -120,6 +124,16 @@ impl<'ast> Visit<'ast> for Tracer {
             self.toks.push(Tok::Call { recv, method, scope: self.scope.clone() });
         }
     }
+    fn visit_expr_field(&mut self, f: &'ast syn::ExprField) {
+        syn::visit::visit_expr_field(self, f);
+        if self.with_buf {
+            if let syn::Member::Named(m) = &f.member {
+                if m == "ptr" {
+                    self.toks.push(Tok::Buf { base: norm(&f.base), scope: self.scope.clone() });
+                }
+            }
+        }
+    }
     fn visit_expr_call(&mut self, c: &'ast syn::ExprCall) {
         syn::visit::visit_expr_call(self, c);
         let f = norm(&c.func);
@@ -142,9 +156,244 @@ fn expr_is_hook(e: &syn::Expr) -> bool {
 }
 
 fn trace(block: &syn::Block) -> Vec<Tok> {
-    let mut t = Tracer { toks: vec![], scope: vec![], next_block: 0, binding: None };
+    let mut t = Tracer { toks: vec![], scope: vec![], next_block: 0, binding: None, with_buf: false };
     t.visit_block(block);
     t.toks
+}
+
+/// the lock trace with the direct buffer accesses (`<base>.ptr`) in it
+fn trace_buf(block: &syn::Block) -> Vec<Tok> {
+    let mut t = Tracer { toks: vec![], scope: vec![], next_block: 0, binding: None, with_buf: true };
+    t.visit_block(block);
+    t.toks
+}
+
+// ---------------------------------------------------------------- every function of the file
+
+/// what one function of `list.rs` (production code) does with the lock and the buffer
+struct FnInfo {
+    /// `List::get`, `PartialEq for List::eq`, `ffi::list_get`, …
+    name: String,
+    /// receivers of `.lock()` / `.read()` / `.write()` / `.try_*()` on a list's lock (`….0`)
+    locks: Vec<String>,
+    /// direct accesses to the element buffer: `<base>.ptr`, `from_raw_parts`
+    bufs: Vec<String>,
+    /// the return type mentions a reference or a raw pointer
+    ret_ptr: bool,
+}
+
+fn is_test_attr(attrs: &[syn::Attribute]) -> bool {
+    attrs.iter().any(|a| a.path().is_ident("cfg") && norm(&a.meta).contains("test"))
+}
+
+struct FnScan {
+    locks: Vec<String>,
+    bufs: Vec<String>,
+}
+
+impl<'ast> Visit<'ast> for FnScan {
+    fn visit_stmt(&mut self, s: &'ast syn::Stmt) {
+        match s {
+            syn::Stmt::Local(l) if is_hook_attr(&l.attrs) => {}
+            syn::Stmt::Expr(e, _) if expr_is_hook(e) => {}
+            _ => syn::visit::visit_stmt(self, s),
+        }
+    }
+    fn visit_expr_method_call(&mut self, m: &'ast syn::ExprMethodCall) {
+        syn::visit::visit_expr_method_call(self, m);
+        let name = m.method.to_string();
+        if ["lock", "read", "write", "try_lock", "try_read", "try_write"].contains(&name.as_str()) {
+            let recv = norm(&m.receiver);
+            if recv.ends_with(".0") {
+                self.locks.push(format!("{recv}.{name}()"));
+            }
+        }
+    }
+    fn visit_expr_field(&mut self, f: &'ast syn::ExprField) {
+        syn::visit::visit_expr_field(self, f);
+        if let syn::Member::Named(m) = &f.member {
+            if m == "ptr" {
+                self.bufs.push(format!("{}.ptr", norm(&f.base)));
+            }
+        }
+    }
+    fn visit_expr_call(&mut self, c: &'ast syn::ExprCall) {
+        syn::visit::visit_expr_call(self, c);
+        let f = norm(&c.func);
+        if f.contains("from_raw_parts") {
+            self.bufs.push("from_raw_parts".into());
+        }
+    }
+}
+
+/// every function above the lock: module `ffi`, the impls of `List`,
+/// `IntoIter`, `ErasedList` (inherent and trait impls). `RawList` and the
+/// allocation helpers live *below* the lock (they are only reachable through
+/// a guard) and are not listed; `#[cfg(feature = "verif-hooks")]` and
+/// `#[cfg(test)]` items are skipped.
+struct Enumerator {
+    label: Vec<String>,
+    out: Vec<FnInfo>,
+}
+
+impl Enumerator {
+    fn add(&mut self, sig: &syn::Signature, block: &syn::Block) {
+        let mut sc = FnScan { locks: vec![], bufs: vec![] };
+        sc.visit_block(block);
+        let ret = match &sig.output {
+            syn::ReturnType::Default => String::new(),
+            syn::ReturnType::Type(_, t) => norm(&**t),
+        };
+        let ret_ptr = ret.contains('&') || ret.contains("*const") || ret.contains("*mut") || ret.contains("NonNull");
+        let prefix = self.label.last().cloned().unwrap_or_default();
+        self.out.push(FnInfo {
+            name: if prefix.is_empty() { sig.ident.to_string() } else { format!("{prefix}::{}", sig.ident) },
+            locks: sc.locks,
+            bufs: sc.bufs,
+            ret_ptr,
+        });
+    }
+}
+
+fn strip_generics(t: &str) -> String {
+    t.split('<').next().unwrap_or(t).to_string()
+}
+
+impl<'ast> Visit<'ast> for Enumerator {
+    fn visit_item_mod(&mut self, m: &'ast syn::ItemMod) {
+        if is_hook_attr(&m.attrs) || is_test_attr(&m.attrs) {
+            return;
+        }
+        // `boundary` is only a namespace; `ffi` labels its free functions
+        let name = m.ident.to_string();
+        self.label.push(if name == "ffi" { "ffi".into() } else { String::new() });
+        syn::visit::visit_item_mod(self, m);
+        self.label.pop();
+    }
+    fn visit_item_impl(&mut self, i: &'ast syn::ItemImpl) {
+        if is_hook_attr(&i.attrs) || is_test_attr(&i.attrs) {
+            return;
+        }
+        let ty = strip_generics(&norm(&*i.self_ty));
+        if ty == "RawList" || ty == "DropGuard" {
+            return;
+        }
+        let label = match &i.trait_ {
+            Some((_, p, _)) => format!("{} for {ty}", strip_generics(&norm(p))),
+            None => ty,
+        };
+        self.label.push(label);
+        syn::visit::visit_item_impl(self, i);
+        self.label.pop();
+    }
+    fn visit_impl_item_fn(&mut self, f: &'ast syn::ImplItemFn) {
+        if is_hook_attr(&f.attrs) || is_test_attr(&f.attrs) {
+            return;
+        }
+        self.add(&f.sig, &f.block);
+        syn::visit::visit_impl_item_fn(self, f);
+    }
+    fn visit_item_fn(&mut self, f: &'ast syn::ItemFn) {
+        if is_hook_attr(&f.attrs) || is_test_attr(&f.attrs) {
+            return;
+        }
+        // free functions: only those of module `ffi` are above the lock
+        if self.label.last().map(|l| l == "ffi").unwrap_or(false) {
+            self.add(&f.sig, &f.block);
+        }
+        syn::visit::visit_item_fn(self, f);
+    }
+}
+
+/// the functions whose steps the model has (`Op` of Model/ListConc, through
+/// the shapes checked below)
+const MODELLED: &[&str] = &[
+    "ffi::list_get",
+    "List::get",
+    "List::to_vec",
+    "PartialEq for List::eq",
+    "PartialEq for ErasedList::eq",
+    "ErasedList::push",
+    "ErasedList::get",
+    "ErasedList::concat",
+    "ErasedList::contains",
+    "ErasedList::contains_owned",
+    "ErasedList::index",
+    "ErasedList::index_owned",
+    "ErasedList::swap",
+    "ErasedList::len",
+    "ErasedList::capacity",
+    "ErasedList::is_empty",
+];
+
+/// `List::to_vec`: one `let`-bound guard on `self.inner.0`, the buffer reached
+/// only through that guard, every element cloned inside the guard's block,
+/// the guard never dropped by hand, nothing but an owned value returned
+fn to_vec_under_guard(b: &find::FnBody) -> (bool, String) {
+    let toks = trace_buf(&b.block);
+    let locks: Vec<(&String, &Option<String>, &Vec<usize>)> = toks
+        .iter()
+        .filter_map(|t| if let Tok::Lock { recv, bound, scope } = t { Some((recv, bound, scope)) } else { None })
+        .collect();
+    let why = |w: &str| (false, format!("{w}; lock trace: {}", show(&toks)));
+    let [(recv, Some(g), gscope)] = locks.as_slice() else {
+        return why("expected exactly one let-bound guard");
+    };
+    if recv.as_str() != "self.inner.0" {
+        return why("the lock taken is not self.inner.0");
+    }
+    let bufs: Vec<&String> = toks.iter().filter_map(|t| if let Tok::Buf { base, .. } = t { Some(base) } else { None }).collect();
+    if bufs.is_empty() || bufs.iter().any(|b| *b != g) {
+        return why("the buffer is not reached through the guard");
+    }
+    let clones: Vec<&Vec<usize>> =
+        toks.iter().filter_map(|t| if let Tok::CloneElem { scope } = t { Some(scope) } else { None }).collect();
+    if clones.is_empty() {
+        return why("no element clone found");
+    }
+    if clones.iter().any(|c| !(c.len() >= gscope.len() && c[..gscope.len()] == gscope[..])) {
+        return why("an element is cloned outside the guard's block");
+    }
+    if toks.iter().any(|t| matches!(t, Tok::Drop(n) if n == g)) {
+        return why("the guard is dropped by hand");
+    }
+    let li = toks.iter().position(|t| matches!(t, Tok::Lock { .. })).unwrap();
+    if toks[..li].iter().any(|t| matches!(t, Tok::Buf { .. } | Tok::CloneElem { .. })) {
+        return why("the buffer is touched before the lock is taken");
+    }
+    (true, show(&toks))
+}
+
+/// the typed `==`: both slices are built from the two guards bound by
+/// `let (x, y) = if … { lock; lock; (x, y) } else { … }` and nothing is
+/// dropped by hand (the guards live to the end of the function, where the
+/// comparison has been done)
+fn typed_eq_walk_under_guards(b: &find::FnBody) -> (bool, String) {
+    let toks = trace_buf(&b.block);
+    let why = |w: &str| (false, format!("{w}; lock trace: {}", show(&toks)));
+    let mut names: Option<(String, String)> = None;
+    for s in &b.block.stmts {
+        if let syn::Stmt::Local(l) = s {
+            if let (syn::Pat::Tuple(t), Some(init)) = (&l.pat, &l.init) {
+                if let (syn::Expr::If(_), [syn::Pat::Ident(x), syn::Pat::Ident(y)]) =
+                    (&*init.expr, t.elems.iter().collect::<Vec<_>>().as_slice())
+                {
+                    names = Some((x.ident.to_string(), y.ident.to_string()));
+                }
+            }
+        }
+    }
+    let Some((x, y)) = names else {
+        return why("no `let (a, b) = if … { lock; lock; (a, b) } else { … }` holding the two guards");
+    };
+    let bufs: Vec<&String> = toks.iter().filter_map(|t| if let Tok::Buf { base, .. } = t { Some(base) } else { None }).collect();
+    if !bufs.iter().any(|b| **b == x) || !bufs.iter().any(|b| **b == y) || bufs.iter().any(|b| **b != x && **b != y) {
+        return why("the two slices are not built from the two guards");
+    }
+    if toks.iter().any(|t| matches!(t, Tok::Drop(_))) {
+        return why("a guard is dropped by hand");
+    }
+    (true, show(&toks))
 }
 
 fn show(toks: &[Tok]) -> String {
@@ -155,6 +404,7 @@ fn show(toks: &[Tok]) -> String {
             Tok::Drop(n) => format!("drop({n})"),
             Tok::Call { recv, method, .. } => format!("{recv}.{method}"),
             Tok::CloneElem { .. } => "clone-element".into(),
+            Tok::Buf { base, .. } => format!("{base}.ptr"),
         })
         .collect::<Vec<_>>()
         .join("; ")
@@ -276,6 +526,38 @@ fn single_section(name: &str, toks: &[Tok], method: &str) -> Result<Shape, Strin
 fn c16facts(repo: &Path) -> Result<String, String> {
     let f = find::parse(repo, "src/value/list.rs")?;
     let mut notes: Vec<String> = vec![];
+
+    // ---- every function above the lock: which of them take the lock or touch the buffer
+    let mut en = Enumerator { label: vec![], out: vec![] };
+    en.visit_file(&f);
+    let mut unmodelled: Vec<String> = vec![];
+    let mut locking: Vec<String> = vec![];
+    for i in &en.out {
+        if i.locks.is_empty() && i.bufs.is_empty() {
+            continue;
+        }
+        let mut what = vec![];
+        if !i.locks.is_empty() {
+            what.push(format!("takes {}", i.locks.join(", ")));
+        }
+        if !i.bufs.is_empty() {
+            what.push(format!("reaches the element buffer through {}", i.bufs.join(", ")));
+        }
+        if i.ret_ptr && !i.locks.is_empty() {
+            what.push("returns a reference / pointer (whatever it locked is unlocked when it returns)".into());
+        }
+        if MODELLED.contains(&i.name.as_str()) {
+            locking.push(format!("{}: {}", i.name, what.join("; ")));
+        } else {
+            unmodelled.push(format!("{}: {}", i.name, what.join("; ")));
+        }
+    }
+    notes.push(format!(
+        "functions above the lock: {} ({} take the lock or touch the buffer, {} of them outside the modelled set)",
+        en.out.len(),
+        locking.len() + unmodelled.len(),
+        unmodelled.len()
+    ));
 
     // ---- ErasedList's one-section methods
     let mut shapes = vec![];
@@ -570,7 +852,10 @@ fn c16facts(repo: &Path) -> Result<String, String> {
         }
         [] => {
             // argument order (or, on the pinned tree, `self` twice): not the ordered form
-            if tl != ["self.inner.0", "other.inner.0"] && tl != ["self.inner.0", "self.inner.0"] {
+            if tl.is_empty() {
+                // it takes no lock itself (whatever it calls is listed among the functions above)
+                notes.push("List<T>::eq takes no lock itself".into());
+            } else if tl != ["self.inner.0", "other.inner.0"] && tl != ["self.inner.0", "self.inner.0"] {
                 return Err(format!("List<T>::eq: unrecognised lock sequence {tl:?}: {}", show(&tt)));
             }
             false
@@ -587,13 +872,36 @@ fn c16facts(repo: &Path) -> Result<String, String> {
         show(&tt)
     ));
 
+    // ---- the Rust-side walks over the whole buffer
+    let tv = find::func(&f, "to_vec", Some("List"))?;
+    let (to_vec_under, tv_note) = to_vec_under_guard(&tv);
+    notes.push(format!("List::to_vec: walk under its guard = {to_vec_under}; {tv_note}"));
+    let (typed_walk_under, tw_note) = typed_eq_walk_under_guards(&te);
+    notes.push(format!("List<T>::eq: walk under both guards = {typed_walk_under}; {tw_note}"));
+
     let b = |x: bool| if x { "true" } else { "false" };
     let mut out = String::new();
     out.push_str("/- GENERATED by /verif/extract (target `c16facts`) from src/value/list.rs — do not edit.\n");
     for n in &notes {
         out.push_str(&format!("   {n}\n"));
     }
+    for l in &locking {
+        out.push_str(&format!("   MODELLED {l}\n"));
+    }
+    for u in &unmodelled {
+        out.push_str(&format!("   UNMODELLED {u}\n"));
+    }
     out.push_str("-/\nimport RotoV.Model.ListConc\nnamespace RotoV.Gen.C16\nopen RotoV.ListConc\n\n");
+    out.push_str(&format!(
+        "/-- number of functions of src/value/list.rs above the lock (module `ffi`, impls of `List`, `IntoIter`,\n    `ErasedList`) that take a list's lock or touch the element buffer and are NOT among the operations the\n    model has steps for (listed as UNMODELLED above) -/\ndef unmodelledLockingFns : Nat := {}\n/-- … and the number of those that are -/\ndef modelledLockingFns : Nat := {}\n\n",
+        unmodelled.len(),
+        locking.len()
+    ));
+    out.push_str(&format!(
+        "/-- `List::to_vec`: the whole walk (slice, clone of every element) inside one `let`-bound guard -/\ndef toVecUnderGuard : Bool := {}\n/-- `List<T>::eq`: both slices are built from, and compared under, the two guards -/\ndef typedEqWalkUnderGuards : Bool := {}\n\n",
+        b(to_vec_under),
+        b(typed_walk_under)
+    ));
     out.push_str(&format!(
         "def facts : Facts :=\n  {{ getUnderGuard := {}\n    ffiGetUnderGuard := {}\n    eqOrdered := {}\n    concatAtomic := {} }}\n\n",
         b(get_under),
